@@ -51,8 +51,14 @@ func c13Profiles(tier string) []Profile {
 	faulted := Profile{Name: "after-faults", Exec: OnlySigs(OnlyOracles(c07ExecMon(1, 1, false, harness.Monitors{Invariant: true, Format: true}), "invariant", "format", "model"), "invariant:", "format:", "model:totals"),
 		Budget: map[int]int{1: 0, 2: 0, 3: 1}, ShardLevel: 3,
 		Rule: "treap invariants when a file call fails: the C07 driver (6 initial stores x every single operation x one failing file call at every index, retried or not; a call that reports success is taken at its word) followed by Set, Flush, the full read battery, a copy of the file re-opened, Reopen and the battery again; after the suffix's Flush and again after its Reopen the walk of the cached tree must satisfy order, aggregates and heap order, GetTotals must equal the model, and every flushed tree must pass the independent decoder's aggregate checks (a mutation that drops the read error of a sibling subtree records wrong counts)"}
+	ns, ds := 5, 2
+	if tier == "thorough" {
+		ns, ds = 6, 2
+	}
+	shapes := shapesProfile("shapes", ns, ds, mon, p4.Finish)
 	return []Profile{
 		faulted,
+		shapes.Profile(shapesRule(ns, ds) + "; same oracles as profile four at every end state"),
 		p4.Profile(fmt.Sprintf("every history of length <= %d over Set(k,p) for 4 keys x priorities 1..4 (every insertion order, every priority ranking and tie pattern), Delete, Flush, Evict (every random branch), Reopen; at every end state the side-effect-free walk of the cached tree gives: in-order keys strictly ascending, every node's numNodes/numBytes equal to the recomputed subtree values, (while no key was overwritten with a lower priority) no child outranks its parent and, with pairwise distinct priorities, every key's depth equals its depth in the reference treap of the current (key, priority) set; the same order and aggregate checks on every node record of every flushed tree via the independent decoder", d4)),
 		p3.Profile(fmt.Sprintf("every history of length <= %d over 3 keys x priorities 1..3 with the same letters (all insertion orders followed by every delete/overwrite sequence of length <= %d with cache letters in between)", d3, d3-3)),
 	}
